@@ -150,7 +150,8 @@ def to_events_flat(lines):
                             "delf": int(d["delf"]), "del": limbs27(int(d["del"]))})
         elif tag == "pes":
             evs.append({"e": "Pes", "b": hexlist(d["hex"]), "ptsf": int(d["ptsf"]), "dtsf": int(d["dtsf"]),
-                        "pts": limbs33(int(d["pts"])), "dts": limbs33(int(d["dts"]))})
+                        "pts": limbs33(int(d["pts"])), "dts": limbs33(int(d["dts"])),
+                        "pd": 1 if int(d["sid"]) == 190 else 0})        # padding_stream: carries nothing
         elif tag == "au":
             evs.append({"e": "Au", "b": hexlist(d["hex"]), "ptsf": int(d["ptsf"]), "dtsf": int(d["dtsf"]),
                         "pts": limbs27(int(d["pts"])), "dts": limbs27(int(d["dts"])),
@@ -376,7 +377,7 @@ def gen_p(rng, n):
         ptsf, dtsf, pts, dts = rand_stamps33(rng)
         pad = rng.choice([0, 0, 0, 1, 2, 7, 30])
         size = rng.choice([0, 1, 2, 10, 165, 184, 400]) if rng.chance(1, 2) else rng.below(300)
-        sid = rng.choice([224, 224, 192, 189, 191])
+        sid = rng.choice([224, 224, 192, 189, 191, 190])
         seg = " seg=%d" % rng.choice([1, 2, 5, 6, 8, 9, 13]) if rng.chance(1, 5) else ""
         cmds.append("pes sid=%d pad=%d ptsf=%d dtsf=%d pts=%d dts=%d n=%d pay=%d cut=%s%s" % (
             sid, pad, ptsf, dtsf, pts, dts, size, 1 + rng.below(1000), rand_cut(rng, size + 30), seg))
